@@ -96,13 +96,34 @@ theorem C13_perm (pol : Bool) (proj : List ℕ) (A B : List Snp) (h : A.Perm B) 
 
 /-! ## polarisation -/
 
+/-- **the three-way test for a usable ancestral allele, as a decision table**: `polTable` is generated by running the polarisation
+    and derived-allele statements of `Misc.count_data_dict` on one representative per equality pattern among ('-', allele1,
+    allele2, outgroup allele or no outgroup key) — 80 rows.  The table is complete (its keys are exactly `polKeys`), agrees row by row
+    with the statement's test `polSpec` (polarised iff an outgroup allele is recorded, is not '-' and is one of the two segregating
+    alleles; then the other allele is the derived one; '-' / missing / a third allele ⇒ unpolarised, second allele counted), and
+    therefore the model's decision `Snp.polRow` — the row found under the SNP's canonical key — is `polSpec` for EVERY SNP, whatever
+    its allele strings -/
+theorem C13_polarised_table :
+    polTable.map (·.1) = polKeys ∧ (∀ k ∈ polKeys, Snp.polLookup k = polSpec k) ∧
+    ∀ s : Snp, s.polRow = polSpec (s.out, s.a1, s.a2) := by
+  have h1 : polTable.map (·.1) = polKeys := by decide +kernel
+  have h2 : ∀ k ∈ polKeys, Snp.polLookup k = polSpec k := by decide +kernel
+  exact ⟨h1, h2, Snp.polRow_of_table h2⟩
+
 /-- a SNP is polarised exactly when an outgroup allele is recorded, is not '-', and is one of the two segregating alleles -/
 theorem C13_polarised_iff (s : Snp) :
     s.polarized = true ↔ ∃ o, s.out = some o ∧ o ≠ dash ∧ (o = s.a1 ∨ o = s.a2) := by
-  unfold Snp.polarized polarizedTest
+  unfold Snp.polarized
+  rw [C13_polarised_table.2.2 s, polSpec]
   cases h : s.out with
   | none => simp
-  | some o => simp [Bool.and_eq_true, bne_iff_ne]
+  | some o =>
+    by_cases hc : o ≠ dash ∧ (o = s.a1 ∨ o = s.a2)
+    · simp only [if_pos hc, true_iff]; exact ⟨o, rfl, hc.1, hc.2⟩
+    · simp only [if_neg hc, Bool.false_eq_true, false_iff]
+      rintro ⟨o', ho', hd, h12⟩
+      cases ho'
+      exact hc ⟨hd, h12⟩
 
 /-- the derived calls are those of the allele that differs from the outgroup allele; an unpolarised SNP counts
     its second allele -/
@@ -111,19 +132,62 @@ theorem C13_polarise (s : Snp) :
     (s.polarized = true → s.out = some s.a2 → s.a1 ≠ s.a2 → s.derived = s.calls.map Prod.fst) ∧
     (s.polarized = false → s.derived = s.calls.map Prod.snd) ∧
     s.successful = s.calls.map (fun c => c.1 + c.2) := by
+  have hrow := C13_polarised_table.2.2 s
+  have hsel : s.derivedSel = (polSpec (s.out, s.a1, s.a2)).2 := by unfold Snp.derivedSel; rw [hrow]
+  have hpol : s.polarized = (polSpec (s.out, s.a1, s.a2)).1 := by unfold Snp.polarized; rw [hrow]
   refine ⟨?_, ?_, ?_, ?_⟩
   · intro hp ho
-    have : s.derivedSel = some 2 := by simp [Snp.derivedSel, Snp.outgroupUsed, hp, ho, derivedIfA1Outgroup]
+    rw [hpol] at hp
+    have : s.derivedSel = some 2 := by
+      rw [hsel]; rw [ho] at hp ⊢
+      simp only [polSpec] at hp ⊢
+      split_ifs at hp ⊢ <;> simp_all
     simp [Snp.derived, this, Snp.pick]
   · intro hp ho hne
+    rw [hpol] at hp
     have : s.derivedSel = some 1 := by
-      simp [Snp.derivedSel, Snp.outgroupUsed, hp, ho, hne, derivedIfA2Outgroup]
+      rw [hsel]; rw [ho] at hp ⊢
+      simp only [polSpec] at hp ⊢
+      split_ifs at hp ⊢ <;> simp_all
     simp [Snp.derived, this, Snp.pick]
   · intro hp
+    rw [hpol] at hp
     have : s.derivedSel = some 2 := by
-      simp [Snp.derivedSel, Snp.outgroupUsed, hp, unpolOutgroupAllele, derivedIfA1Outgroup]
+      rw [hsel]
+      cases ho : s.out with
+      | none => rfl
+      | some o =>
+        rw [ho] at hp
+        simp only [polSpec] at hp ⊢
+        split_ifs at hp ⊢ <;> simp_all
     simp [Snp.derived, this, Snp.pick]
   · simp [Snp.successful, successfulCalls]
+
+/-- **'-' / missing / a third allele ⇒ unpolarised-only**: a SNP without a usable ancestral allele is not polarised, contributes
+    nothing to a polarised spectrum (it is not usable there, whatever its calls), and enters the unpolarised (folded) spectrum
+    through the calls of its second allele -/
+theorem C13_unpolarised_only (proj : List ℕ) (s : Snp)
+    (h : s.out = none ∨ s.out = some dash ∨ ∃ o, s.out = some o ∧ o ≠ s.a1 ∧ o ≠ s.a2) :
+    s.polarized = false ∧ (∀ idx, contribAt true proj s idx = 0) ∧ usable true proj s = false ∧
+    s.derived = s.calls.map Prod.snd ∧
+    (∀ idx, contribAt false proj s idx = if s.nseg ≠ biallelicLen then 0 else prodW proj s.successful (s.calls.map Prod.snd) idx) := by
+  have hp : s.polarized = false := by
+    rw [Bool.eq_false_iff]
+    intro hp
+    obtain ⟨o, ho, hd, h12⟩ := (C13_polarised_iff s).mp hp
+    rcases h with h | h | ⟨o', ho', h1, h2⟩
+    · rw [h] at ho; cases ho
+    · rw [h] at ho; cases ho; exact hd rfl
+    · rw [ho'] at ho; cases ho; rcases h12 with e | e
+      · exact h1 e
+      · exact h2 e
+  have hd := (C13_polarise s).2.2.1 hp
+  refine ⟨hp, ?_, ?_, hd, ?_⟩
+  · intro idx; simp [contribAt, hp, skipEntry]
+  · simp [usable, hp, skipEntry]
+  · intro idx; simp [contribAt, hp, skipEntry, hd]
+
+example : (⟨0, 1, 0, 2, 1, 4, some 3, [(3, 5)]⟩ : Snp).out = some 3 ∧ (3 : ℕ) ≠ 1 ∧ (3 : ℕ) ≠ 4 := by decide
 
 /-- which of the two alleles is written first (REF/ALT, Allele1/Allele2) does not matter for a polarised SNP -/
 theorem C13_swap_alleles (proj : List ℕ) (s : Snp) (hp : s.polarized = true) (hne : s.a1 ≠ s.a2) (idx : List ℕ) :
@@ -160,7 +224,8 @@ theorem C13_unpolarised_swap (proj : List ℕ) (s : Snp) (hp : s.polarized = fal
   set s' : Snp := { s with a1 := s.a2, a2 := s.a1, calls := s.calls.map Prod.swap } with hs'
   have hp' : s'.polarized = false := by
     have : s'.polarized = s.polarized := by
-      simp only [hs', Snp.polarized, polarizedTest, Bool.or_comm]
+      rw [Bool.eq_iff_iff, C13_polarised_iff, C13_polarised_iff]
+      simp only [hs', or_comm]
     rw [this, hp]
   have hsucc : s'.successful = s.successful := by
     simp [hs', Snp.successful, successfulCalls, Function.comp_def, Nat.add_comm]
